@@ -249,14 +249,18 @@ class ItemList:
                 else:
                     scores = np.require(scores, np.float32)
 
-        if "rank" in fields:
+        rank_in = fields.get("rank", None)
+        if isinstance(rank_in, pa.Array) and len(rank_in) and array_is_null(rank_in):
+            # an all-null rank column is how an unordered list is written next to ordered ones
+            rank_in = None
+        if rank_in is not None:
             if ordered is False:
                 warnings.warn(
                     "ranks provided but ordered=False, dropping ranks", DataWarning, stacklevel=2
                 )
             else:
                 self._ranks = check_1d(
-                    MTArray(np.require(fields["rank"], np.int32)), self._len, label="ranks"
+                    MTArray(np.require(rank_in, np.int32)), self._len, label="ranks"
                 )
                 if self._len and self._ranks.numpy()[0] != 1:
                     warnings.warn("ranks do not begin with 1", DataWarning, stacklevel=2)
